@@ -4,6 +4,7 @@ From NW Require Import Base.Bytes Model.SchemaTypes Gen.Schema Model.Codec Model
 From NW Require Import Proofs.ServerLib Proofs.ServerRoute Proofs.ServerHandlers Proofs.ServerSteps Proofs.ServerPhases.
 From NW Require Import Proofs.ServerInvBase Proofs.ServerInv Proofs.ServerUniq Proofs.ServerInvCor.
 From NW Require Import Gen.Errors Model.Pool Model.Framing Model.Link Proofs.LinkProofs.
+From NW Require Import Model.LinkConc Proofs.LinkConcProofs.
 
 Theorem C09_only_success :
   forall (cfg : scfg) (h : N) (m : msg) (p : option (list N)) (c : ctx) (cn : conn),
@@ -78,3 +79,29 @@ Proof. exact via_link_auth_transparent. Qed.
 Theorem C09_outcome_success_only :
   forall (r : cresult) (u : str), outcome_of r = MAuthSuccess u -> r = RAuthSuccess u.
 Proof. exact outcome_of_success_only. Qed.
+
+Theorem C09_concurrent_authentications_transparent :
+  forall (cfg : lcfg) (hb : N) (evs : list lev) (id : N) (call : modcall) (o : moutcome),
+    let s := lc_run cfg hb evs in
+    In (id, call, o) (lc_answered s) ->
+    lc_result cfg s id call = snd (via_link cfg hb id call o).
+Proof. exact lc_concurrent_transparent. Qed.
+
+Theorem C09_concurrent_fail_closed :
+  forall (cfg : lcfg) (hb : N) (evs : list lev) (id : N),
+    let s := lc_run cfg hb evs in
+    (forall (f ch : str) (p : list N),
+     In (id, McFbp f ch p) (lc_issued s) ->
+     outcome_of (lc_result cfg s id (McFbp f ch p)) = MOk ->
+     exists o : moutcome,
+       In (id, McFbp f ch p, o) (lc_answered s) /\
+       o <> MErr /\ o <> MInvalid /\ (forall a : list N, o <> MAltered a)) /\
+    (forall (f ch : str) (p a : list N),
+     In (id, McFbp f ch p) (lc_issued s) ->
+     outcome_of (lc_result cfg s id (McFbp f ch p)) = MAltered a ->
+     In (id, McFbp f ch p, MAltered a) (lc_answered s)) /\
+    (forall t u : str,
+     In (id, McAuth t) (lc_issued s) ->
+     outcome_of (lc_result cfg s id (McAuth t)) = MAuthSuccess u ->
+     In (id, McAuth t, MAuthSuccess u) (lc_answered s)).
+Proof. exact lc_fail_closed. Qed.
